@@ -463,12 +463,32 @@ def range_norm_rule(rep, prog, cfg):
     for b in prog.bodies.values():
         if b.crate != "mpd_client" or b.raw.get("derived") or not norm(b.name).startswith("mpd_client::commands::"):
             continue
+        if not any(any(n.endswith(("RangeBounds::start_bound", "RangeBounds::end_bound")) for n in callee_names(t)) for _, t in b.calls()):
+            continue
+        # the per-bound conversion may sit in a private helper (`position_bound(range.start_bound())`): when the function itself
+        # does not match on the bounds it asked for, the helpers that are handed a Bound are spliced in (A12)
+        def _direct(bx):
+            dsts = {t["dest"]["l"] for _, t in bx.calls() if any(n.endswith(("RangeBounds::start_bound", "RangeBounds::end_bound")) for n in callee_names(t))}
+            return any(sw["adt"].endswith("ops::range::Bound") and sw["place"]["l"] in dsts for sw in tables.discr_switches(bx))
+        if not _direct(b):
+            from ..inline import inlined, module_private_helpers
+            base_want = module_private_helpers(b)
+            b = inlined(prog, b, lambda cb: base_want(cb) and any("ops::range::Bound" in cb.local_ty(i) for i in range(1, cb.mir["argc"] + 1)), depth=1)
         side_of = {}
         for bb, t in b.calls():
             ns = callee_names(t)
             for side in ("start", "end"):
                 if any(n.endswith("RangeBounds::%s_bound" % side) for n in ns) and t.get("dest") is not None:
                     side_of[t["dest"]["l"]] = side
+        grew = True
+        while grew:                 # the bound under the names it is moved through (a spliced helper's parameter)
+            grew = False
+            for _, _, st in b.stmts():
+                if st["k"] == "assign" and not st["place"]["p"] and st["rv"]["k"] == "use" and st["place"]["l"] not in side_of:
+                    pl = op_place(st["rv"]["op"])
+                    if pl is not None and not pl["p"] and pl["l"] in side_of:
+                        side_of[st["place"]["l"]] = side_of[pl["l"]]
+                        grew = True
         if not side_of:
             continue
         # an `if let Bound::Unbounded = ..` test that rejects a range (MPD's `move START:END` needs an END): it is the END bound
@@ -518,9 +538,36 @@ def range_norm_rule(rep, prog, cfg):
                           % (side, v, terms.show(got[v]), terms.show(exp[v])))
             rep.sample({"fn": fn, "side": side, "arms": {v: terms.show(t) for v, t in got.items()}})
         if set(results) == {"start", "end"} and last_join is not None:
-            env, err = terms.follow_arm(b, last_join, None, None)
-            ret = terms.canon(env.get(0, ("unknown", "no return value")))
-            s_, e_ = ("free", results["start"]), ("free", results["end"])
+            # from the join of the match that comes last in the control flow (the one from which the return is reached in a
+            # straight line); results are compared up to plain moves (a spliced helper's result is moved into the caller's local)
+            env = {}
+            for sw in sws:
+                j2, _ = terms.match_arms(b, sw)
+                if j2 is None:
+                    continue
+                e2, _ = terms.follow_arm(b, j2, None, None)
+                if 0 in e2:
+                    env = e2
+
+            def _root(t):
+                while isinstance(t, tuple) and t and t[0] == "free":
+                    d = [st for _, _, st in b.stmts() if st["k"] == "assign" and st["place"]["l"] == t[1] and not st["place"]["p"]]
+                    cd = [t2 for _, t2 in b.calls() if t2.get("dest") is not None and t2["dest"]["l"] == t[1] and not t2["dest"]["p"]]
+                    if len(d) == 1 and not cd and d[0]["rv"]["k"] == "use" and op_local(d[0]["rv"]["op"]) is not None \
+                            and not (op_place(d[0]["rv"]["op"]) or {}).get("p"):
+                        t = ("free", op_local(d[0]["rv"]["op"]))
+                        continue
+                    break
+                return t
+
+            def _roots(t):
+                if isinstance(t, tuple) and t and t[0] == "free":
+                    return _root(t)
+                if isinstance(t, tuple):
+                    return tuple(_roots(x) if isinstance(x, tuple) else x for x in t)
+                return t
+            ret = _roots(terms.canon(env.get(0, ("unknown", "no return value"))))
+            s_, e_ = _root(("free", results["start"])), _root(("free", results["end"]))
             if ret[0] == "agg" and ret[1].endswith("::SongRange"):
                 ok = ret[3] == (s_, e_)
             elif ret[0] == "call":
